@@ -411,7 +411,10 @@ func (r *vfC02MuxRun) body(addCloser func(func())) {
 	r.res.Count(1, steps)
 }
 
-var vfC02Stalled atomic.Bool
+var (
+	vfC02Stalled atomic.Bool
+	vfC02Stalls  atomic.Int64
+)
 
 func TestVerifC02Mux(t *testing.T) {
 	res := vfh.NewResult()
@@ -460,6 +463,11 @@ func TestVerifC02Mux(t *testing.T) {
 				if mk().run(20 * time.Second) {
 					// bytes handed to Write never arrived within the watchdog: a violation only if it reproduces
 					res.Inc("mux_stalls", 1)
+					if vfC02Stalls.Add(1) > 3 && !vfC02Stalled.Swap(true) {
+						// stalls that do not reproduce are no verdict; more of them would only burn watchdog time
+						res.AddMismatch(vfh.Mismatch{Class: "MACHINERY", What: "mux: more than 3 walks stalled once without stalling again when repeated", Walk: j.w.Walk})
+						continue
+					}
 					r2 := mk()
 					if r2.run(40*time.Second) && !vfC02Stalled.Swap(true) {
 						r2.mismatch(len(j.w.Steps), "mux-stall", "bytes handed to Write did not reach the reader (the walk stalled twice)", "delivery", "stall")
